@@ -1801,3 +1801,13 @@ mut("C12", "hidden-test-on-whole-path", "R12-15|shell::expand_glob|last-componen
     "the hidden-entry test looks at the whole match instead of its last component",
     (S, """                                if _basename.starts_with('.') && !show_hidden {""",
      """                                if file_path.starts_with('.') && !show_hidden {"""))
+
+mut("C17", "alias-skipped-while-marked-in-use", "R17-9|shell::expand_alias|replacement-guard",
+    "a head-of-stage alias is left alone when a shell-state test says so",
+    (S, """        if !is_head || !sh.is_alias(text) {""", """        if !is_head || !sh.is_alias(text) || sh.previous_status == 130 {"""))
+mut("C16", "renderer-doubles-backslashes", "R16-7|parsers::parser_line::tokens_to_line|untagged-backslash-doubled",
+    "tokens_to_line writes every backslash of an untagged token twice",
+    (P, """            result.push_str(&t.1);""", """            result.push_str(&t.1.replace('\\\\', "\\\\\\\\"));"""))
+mut("C05", "calculator-abs-of-exponent", "R05-1|calculator::eval_int",
+    "abs() on an i64 that can be i64::MIN",
+    ("src/calculator/mod.rs", "Rule::power => lhs.wrapping_pow(rhs as u32),", "Rule::power => lhs.wrapping_pow(rhs.abs() as u32),"))
